@@ -23,7 +23,7 @@ Print Assumptions C04_pcr_roundtrip.
    holds for every uint64 argument *)
 Theorem C04_pcr_layout : forall v old, v < 18446744073709551616 -> (6 <= length old)%nat ->
   PcrCodec.insert_pcr old v = Ok (pcr_bytes v ++ skipn 6 old).
-Proof. intros v old. exact (insert_pcr_ok old v). Qed.
+Proof. exact pcr_layout. Qed.
 Print Assumptions C04_pcr_layout.
 
 (* the byte equations are the 48-bit field  base(33) | 111111 | ext(9)  of ISO 13818-1 cut into bytes *)
@@ -66,7 +66,7 @@ Print Assumptions C04_pcr_reencode.
 (* when the codecs do not return (C05): exactly on targets / inputs that are too short *)
 Theorem C04_pcr_panics_iff_short : forall b v,
   (PcrCodec.insert_pcr b v = Panic <-> (length b < 6)%nat) /\ (PcrCodec.extract_pcr b = Panic <-> (length b < 6)%nat).
-Proof. intros b v. split; [apply insert_pcr_panic_iff | apply extract_pcr_panic_iff]. Qed.
+Proof. exact pcr_panics_iff_short. Qed.
 Print Assumptions C04_pcr_panics_iff_short.
 
 (* ---------------- PTS / DTS ---------------- *)
@@ -80,7 +80,7 @@ Print Assumptions C04_pts_roundtrip.
    holds for every argument (bits above 32 are dropped) *)
 Theorem C04_pts_layout : forall v old, (5 <= length old)%nat ->
   Pts.insert_pts old v = Ok (ts_bytes 2 v ++ skipn 5 old).
-Proof. intros v old. exact (insert_pts_ok old v). Qed.
+Proof. exact pts_layout. Qed.
 Print Assumptions C04_pts_layout.
 
 Theorem C04_pts_layout_is_iso_field : forall p v, p < 16 -> v < T33 -> ser_ts p v = ts_bytes p v.
@@ -124,7 +124,7 @@ Print Assumptions C04_pts_reencode.
 
 Theorem C04_pts_panics_iff_short : forall b v,
   (Pts.insert_pts b v = Panic <-> (length b < 5)%nat) /\ (Pts.extract_time b = Panic <-> (length b < 5)%nat).
-Proof. intros b v. split; [apply insert_pts_panic_iff | apply extract_time_panic_iff]. Qed.
+Proof. exact pts_panics_iff_short. Qed.
 Print Assumptions C04_pts_panics_iff_short.
 
 (* ---------------- end to end: PTS/DTS carried in a PES header ---------------- *)
